@@ -39,7 +39,7 @@ def ent_ts(e, side):
 
 def generate(seed, tier):
     r = random.Random(f'C12gen:{seed}')
-    o = {'conf': {'profile': r.choice(['fast', 'mid']), 'entries': 3, 'mode': 'tunnel' if r.random() < 0.7 else None, 'single': True},
+    o = {'conf': {'profile': r.choice(['fast', 'mid']), 'entries': 3, 'mode': 'tunnel' if r.random() < 0.7 else None, 'single': True, 'mixed_family': 0.15},
          'both_initiate': r.random() < 0.4, 'packets': r.randint(2, 6), 'duration': r.choice([25, 45]), 'forced': 2, 'forced_kinds': ['expire_soft'],
          'faults': []}
     sc = workload.pair_scenario(seed, PROP, o)
